@@ -175,6 +175,43 @@ fn main() {
                 println!("{} histories {}", kind, lines.len());
             }
         }
+        Some("trace-valid") => {
+            let inputs = cases::resolve_inputs(&get("inputs", "gen:100"), seed);
+            let lines: Vec<_> = inputs.par_iter().flat_map(cases::valid_cases).collect();
+            cases::write_lines(&out, &lines);
+            println!("cases {}", lines.len());
+        }
+        Some("edit-inits") => {
+            let inputs = cases::sample(cases::resolve_inputs(&get("inputs", "gen:100"), seed), get("sample", "0").parse().unwrap());
+            let lines: Vec<_> = inputs.par_iter().filter_map(cases::edit_init).collect();
+            cases::write_lines(&out, &lines);
+            println!("inits {}", lines.len());
+        }
+        Some("trace-edits") => {
+            // scripts=<file of TLC "CASE {id, edits}" lines>; inputs must be the same source list used for edit-inits
+            let inputs = cases::sample(cases::resolve_inputs(&get("inputs", "gen:100"), seed), get("sample", "0").parse().unwrap());
+            let by_id: std::collections::HashMap<String, &cases::Input> = inputs.iter().map(|i| (i.id.clone(), i)).collect();
+            let text = std::fs::read_to_string(get("scripts", "")).unwrap();
+            let mut jobs = vec![];
+            for (n, l) in text.lines().enumerate() {
+                let l = l.trim();
+                if !l.starts_with('"') { continue; }
+                let Ok(inner) = serde_json::from_str::<String>(l) else { continue };
+                let Some(payload) = inner.strip_prefix("CASE ") else { continue };
+                let v: serde_json::Value = serde_json::from_str(payload).unwrap();
+                jobs.push((n, v));
+            }
+            let lines: Vec<_> = jobs.par_iter().filter_map(|(n, v)| {
+                let inp = by_id.get(v["id"].as_str()?)?;
+                Some(cases::edits_case(inp, v["edits"].as_array()?, &format!("s{}", n)))
+            }).collect();
+            let shards: usize = get("shards", "1").parse().unwrap();
+            let per = (lines.len() + shards - 1) / shards.max(1);
+            for (s, chunk) in lines.chunks(per.max(1)).enumerate() {
+                cases::write_lines(&format!("{}.{}", out, s), chunk);
+            }
+            println!("histories {}", lines.len());
+        }
         Some("digests") => {
             // one line per input: id and digest of  parse ; emit  with the default switches (separate process per call)
             let inputs = cases::resolve_inputs(&get("inputs", "gen:100"), seed);
